@@ -1,4 +1,5 @@
 import MetadorModel.Proofs.ContainerQuery
+import MetadorModel.Proofs.ContainerMove
 import MetadorModel.Props.C06
 /-!
 # C07 — Metadata comes back as stored; queries are exact
@@ -174,6 +175,30 @@ theorem stored_survives_delete (he : WFEnv e) (hi : Inv e s) (p : Path) {k : Boo
 
 /-- closing and reopening does not change the stored tree at all -/
 theorem stored_survives_reopen : (opReopen s).2.raw = s.raw := rfl
+
+/-- `copy` (with or without metadata, successful or failed) never changes or removes a node, a
+metadata directory or a stored object that existed before: the source keeps its objects with their
+bytes and uuids (the copies get fresh uuids, `C06.sync_copy`) -/
+theorem stored_survives_copy (he : WFEnv e) (hi : Inv e s) (src dst : Path) (withoutMeta : Bool) {q : Path}
+    {n : Node} (hqt : q.head? ≠ some .toc) (hq : get? s.raw q = some n) :
+    get? (opCopy e src dst withoutMeta s).2.raw q = some n := opCopy_keeps he hi src dst withoutMeta hqt hq
+
+/-- `move` does not touch anything outside the moved node and (for a dataset) its metadata
+directory … -/
+theorem stored_survives_move (hi : Inv e s) (src dst : Path) (hname : dst.getLast? ≠ some (.user ""))
+    {q : Path} {n : Node} (hqt : q.head? ≠ some .toc) (hq : get? s.raw q = some n) (hns : ¬ src <+: q)
+    (hnm : ∀ k, nodeKind s src = some k → ¬ metaBase src k <+: q) :
+    get? (opMove e src dst s).2.raw q = some n := (opMove_spec hi src dst hname).2.1 q n hqt hq hns hnm
+
+/-- … and a successful `move` takes the metadata along unchanged: a moved group is found with
+everything below it (metadata directories and objects included) at the new place, a moved dataset
+together with its metadata directory -/
+theorem stored_follows_move (hi : Inv e s) (src dst : Path) (hname : dst.getLast? ≠ some (.user ""))
+    (hok : (opMove e src dst s).1 = .ok ()) :
+    (nodeKind s src = some false → ∀ c, get? (opMove e src dst s).2.raw (dst ++ c) = get? s.raw (src ++ c)) ∧
+    (nodeKind s src = some true → get? (opMove e src dst s).2.raw dst = get? s.raw src ∧
+      ∀ c, get? (opMove e src dst s).2.raw (metaBase dst true ++ c) = get? s.raw (metaBase src true ++ c)) :=
+  (opMove_spec hi src dst hname).2.2 hok
 
 /-! ## at most one object per schema; refused schemas -/
 
